@@ -215,7 +215,7 @@ REGISTRY = {
     },
     "C12": {
         "rules": [
-            registries.rule_ag_compress_registry, exponent.rule_view_accrual, capguard.rule_cap_guard, capguard.rule_pair_predicate, capguard.rule_opts_delivered, envs.rule_private_boundary,
+            registries.rule_ag_compress_registry, exponent.rule_view_accrual, capguard.rule_cap_guard, capguard.rule_pair_predicate, capguard.rule_opts_delivered, envs.rule_private_boundary, envs.rule_env_scope,
             P(optflow.rule_option_delivery, opts=("max_bond", "cutoff"),
               modules=("quimb.tensor.tn2d", "quimb.tensor.tn3d", "quimb.tensor.tnag.compress", "quimb.tensor.tensor_core"),
               rule="cap-delivery[boundary]", floor=80),
